@@ -88,6 +88,14 @@ class Repo:
             from .alpha import load_reference, undo_pure_renames
             ref = load_reference()
             self._undo_function_renames(ref)
+            if ref and not os.environ.get("SA_NO_INLINE"):
+                from .inline import undo_extractions
+                from .normalise import normalise as _norm
+                before = len(self.renames_undone)
+                undo_extractions({m.name: m.tree for m in self.modules.values()}, set(ref), self.renames_undone)
+                if len(self.renames_undone) > before:
+                    for m in self.modules.values():      # an inlined body may complete a guard-clause / return-temporary pattern
+                        m.tree = _norm(m.tree)
             for m in self.modules.values():
                 self._undo_renames(m, ref, undo_pure_renames)
         for m in self.modules.values():
